@@ -95,7 +95,7 @@ def run(tier, rep):
             rep.nontriv(x["id"])
     rep.sample({"map": maps[3]["map"], "first": maps[3]["first"], "types": [t for _, t in [((1, 5), "Code15"), ((2, 7), "Code2"), ((3, 3), "Code3"), ((3, 6), "Code3"), ((3, 8), "Code38"), ((3, 10), "Code310")]]})
     rep.extra["inputs"] = {"mappings": len(maps), "frozen_tables": len(ok)}
-    rep.assumptions += ["a mapping starts with (0, co_firstlineno); consecutive entries have different lines; decreasing lines only for 3.6+ types"]
+    rep.assumptions += ["a mapping starts at offset 0 (with co_firstlineno or a later line); consecutive entries may repeat a line (expected back without the repeat); decreasing lines only for 3.6+ types"]
 
 
 def replay(body, rep):
